@@ -234,7 +234,13 @@ func propVerifyRaw(t *rapid.T) {
 	pk := lib.PubKey(c.q)
 	lr, ls := lib.Sc(r), lib.Sc(s)
 	var got bool
-	if p := lib.Catch(func() { got = pk.VerifyRaw(c.digest, lr, ls) }); p != nil {
+	adj, unchanged := gen.Adjacent(c.digest)
+	defer func() {
+		if !unchanged() {
+			t.Fatalf("VerifyRaw modified its caller's buffer (digest %x)", c.digest)
+		}
+	}()
+	if p := lib.Catch(func() { got = pk.VerifyRaw(adj[0], lr, ls) }); p != nil {
 		t.Fatalf("VerifyRaw panicked: %v", p)
 	}
 	if got != want {
@@ -404,8 +410,12 @@ func propVerifyOpts(t *rapid.T) {
 	})
 	pk := lib.PubKey(c.q)
 	var got bool
-	if p := lib.Catch(func() { got = pk.Verify(c.digest, sig, opts) }); p != nil {
+	adj, unchanged := gen.Adjacent(c.digest, sig) // arguments sliced out of one caller buffer
+	if p := lib.Catch(func() { got = pk.Verify(adj[0], adj[1], opts) }); p != nil {
 		t.Fatalf("Verify panicked: %v (opts %s)", p, optDesc)
+	}
+	if !unchanged() {
+		t.Fatalf("Verify modified its caller's buffer (digest %x, sig %x, opts %s)", c.digest, sig, optDesc)
 	}
 	if got != want {
 		t.Fatalf("Verify(Q=%v, digest=%x, sig=%x, opts={%s}) = %v, model says %v [%v]", c.q, c.digest, sig, optDesc, got, want, cl)
@@ -459,7 +469,13 @@ func propBitcoin(t *rapid.T) {
 		return map[string]any{"Q": c.q.String(), "digest": stat.Hex(c.digest), "sig": stat.Hex(sig), "envelope": env, "expect": acc}
 	})
 	var got bool
-	if p := lib.Catch(func() { got = bitcoin.VerifyASN1(lib.PubKey(c.q), c.digest, sig) }); p != nil {
+	adj, unchanged := gen.Adjacent(sig, c.digest)
+	defer func() {
+		if !unchanged() {
+			t.Fatalf("bitcoin.VerifyASN1 modified its caller's buffer (digest %x, sig %x)", c.digest, sig)
+		}
+	}()
+	if p := lib.Catch(func() { got = bitcoin.VerifyASN1(lib.PubKey(c.q), adj[1], adj[0]) }); p != nil {
 		t.Fatalf("bitcoin.VerifyASN1 panicked: %v", p)
 	}
 	if got != want {
